@@ -174,7 +174,7 @@ def parse_rejects_unbalanced(ks: List[int], vs: List[int]) -> bool:
     pre: len(ks) <= R.N(4)
     pre: _codes_ok(ks, vs)
     pre: _kcell(ks)
-    pre: not _kf_closer_as_term(ks)  # HARDWIRED-TEST
+    pre: not R.known("C15-closer-as-term", _kf_closer_as_term(ks))
     post: _
     """
     try:
@@ -240,7 +240,18 @@ SUBQ = ["a", "b", '"a"', "[b]", "~a", "{a}", "b*", "??", "{a:}", "c", "?", "???"
 TERM_OF = {0: (0, "a"), 1: (0, "b"), 2: (1, "a"), 6: (2, "b"), 9: (0, "c")}
 # whole queries for the sibling-permutation law
 PERMQ = ["a && b", "a || b", "[a && b]", "{a, b}", "{a: b}", "{a, b:}", "~a && b", "{a && ?}",
-         "[a] && b", "{a:}", "{(a || b), ?: ???}", "?? && a", "[[a]]", "{a, {b}}", "a && a", "{a || b: ???}"]
+         "[a] && b", "{a:}", "{(a || b), ?: ???}", "?? && a", "[ [a] ]", "{a, {b}}", "a && a", "{a || b: ???}"]
+
+
+
+def _well_formed(query):
+    """import-time guard (concrete): the query compiles and is a sentence of the reference grammar"""
+    QueryHandler(query)
+    return Q.in_grammar([Q.code_of_text(t.text) for t in QueryHandler._tokenize(query.casefold())])
+
+
+assert all(_well_formed(q) for q in SUBQ + PERMQ), "a fixed query of the C15 harness is not well-formed"
+assert all(_well_formed(f"{a} {op} {b}") for a in SUBQ for b in SUBQ for op in ("&&", "||"))
 
 _PARENT = {"b": "a"}        # the hierarchy of vp/termstub.TREE, restated for the oracle: node b is a child of a
 
@@ -351,7 +362,7 @@ def and_laws(sh: int, qa: int, qb: int, x0: str, x1: str, x2: str, x3: str, x4: 
 def and_assoc(sh: int, qa: int, qb: int, qc: int, x0: str, x1: str, x2: str, x3: str, x4: str) -> bool:
     """
     pre: 0 <= sh < len(SHAPES) and _pin("VP_SH", sh)
-    pre: 0 <= qa < R.M(3) and 0 <= qb < R.M(3) and 0 <= qc < R.M(3) and _pin("VP_QA", qa)
+    pre: 0 <= qa < R.M(3) and 0 <= qb < R.M(3) and 0 <= qc < R.M(3) and _pin("VP_QA", qa) and _pin("VP_QB", qb)
     pre: _tags([x0, x1, x2, x3, x4], SHAPES[sh])
     post: _
     """
@@ -444,9 +455,10 @@ def _cells(dims):
     return R.product_cells(*[[{name: v} for v in values] for name, values in dims])
 
 
-def _sq(shapes, m):
-    """cells (shape, first sub-query) with the other sub-queries ranging over SUBQ[:m] inside the cell"""
-    return [dict(c, VP_M=m) for c in _cells([("VP_SH", shapes), ("VP_QA", list(range(m)))])]
+def _sq(shapes, m, split_b=False):
+    """cells (shape, first sub-query[, second]) with the other sub-queries ranging over SUBQ[:m] inside the cell"""
+    dims = [("VP_SH", shapes), ("VP_QA", list(range(m)))] + ([("VP_QB", list(range(m)))] if split_b else [])
+    return [dict(c, VP_M=m) for c in _cells(dims)]
 
 
 _STUB = ["term-stub schema vp/termstub.TREE: every one-character tag is a node whose entry carries only "
@@ -461,7 +473,7 @@ _SHAPES_TXT = "annotation shapes %s (digits = one-character tags, each any print
 
 HARNESSES = [
     R.H("parse_total", _TP,
-        quick=R.tier(cells=kcells(3, split1_from=3), env={"VP_N": 3}, timeout=600,
+        quick=R.tier(cells=kcells(3, split1_from=3), env={"VP_N": 3}, timeout=300,
                      bound="every token-kind list of length <= 3 over the 13 token kinds, every spelling variant"),
         thorough=R.tier(cells=kcells(4, split1_from=3, split2_from=4) + _len5_first_spelling(), env={"VP_N": 4},
                         timeout=600,
@@ -471,7 +483,7 @@ HARNESSES = [
         oracle="models/query_ref.py in_grammar (recursive-descent recogniser written from the QueryHandler docstring)",
         stubs=_TOK, outside="queries longer than the bound; term spellings other than a, \"a\", a*"),
     R.H("parse_rejects_unbalanced", _TP,
-        quick=R.tier(cells=kcells(3, split1_from=3), env={"VP_N": 3}, timeout=600,
+        quick=R.tier(cells=kcells(3, split1_from=3), env={"VP_N": 3}, timeout=300,
                      bound="every token-kind list of length <= 3 over the 13 token kinds, every spelling variant"),
         thorough=R.tier(cells=kcells(4, split1_from=3, split2_from=4), env={"VP_N": 4}, timeout=600,
                         bound="every token-kind list of length <= 4 over the 13 token kinds, every spelling variant"),
@@ -480,7 +492,7 @@ HARNESSES = [
         stubs=_TOK, outside="queries longer than the bound"),
     R.H("tokenizer_link", _TP + ["hed.models.query_handler.QueryHandler._tokenize", "hed.models.query_util.Token.__init__",
                                  "hed.models.query_handler.QueryHandler.__init__"],
-        quick=R.tier(cells=kcells(2), env={"VP_N": 2}, timeout=600,
+        quick=R.tier(cells=kcells(2), env={"VP_N": 2}, timeout=300,
                      bound="blank-joined queries of <= 2 tokens from the 18 token texts (indices enumerated by the solver)"),
         thorough=R.tier(cells=kcells(3, split1_from=3, ncodes=len(TEXTS)), env={"VP_N": 3}, timeout=300,
                         bound="blank-joined queries of <= 3 tokens from the 18 token texts (indices enumerated by the solver)"),
@@ -488,7 +500,7 @@ HARNESSES = [
              "accept/reject verdict and expression tree text as the token-list entry used by the parser harnesses",
         oracle="second run of the real parser on the token list", outside="token texts outside the table"),
     R.H("or_law", _TA,
-        quick=R.tier(cells=_sq([5], 5), timeout=600,
+        quick=R.tier(cells=_sq([5], 5), timeout=300,
                      bound=_SHAPES_TXT % "(0,(1)),2" + "; A, B from the first 5 sub-queries of SUBQ (enumerated by the solver)"),
         thorough=R.tier(cells=_sq([4, 5], 8) + _sq([2, 6, 7], 4) + _sq([9], 2), timeout=900,
                         bound="shapes (0,1),2 and (0,(1)),2 x first 8 sub-queries; (0,1), ((0,1),2), (0,1),(2,3) x first 4; "
@@ -496,7 +508,7 @@ HARNESSES = [
         what="'A || B' matches iff A matches or B matches", oracle="three runs of the real search on the same annotation",
         stubs=_STUB, outside="other shapes / sub-queries; multi-character tags, values, extensions; the bundled schemas"),
     R.H("and_laws", _TA,
-        quick=R.tier(cells=_sq([4, 5], 4), timeout=600,
+        quick=R.tier(cells=_sq([4, 5], 4), timeout=300,
                      bound=_SHAPES_TXT % "(0,1),2 and (0,(1)),2" + "; A, B from the first 4 sub-queries of SUBQ"),
         thorough=R.tier(cells=_sq([4, 5], 8) + _sq([2, 6, 7], 4) + _sq([9], 2), timeout=900,
                         bound="shapes (0,1),2 and (0,(1)),2 x first 8 sub-queries; (0,1), ((0,1),2), (0,1),(2,3) x first 4; "
@@ -506,14 +518,14 @@ HARNESSES = [
         oracle="runs of the real search on the same annotation; distinct-tag witness computed from the tag letters",
         stubs=_STUB, outside="other shapes / sub-queries; multi-character tags; the bundled schemas"),
     R.H("and_assoc", _TA,
-        quick=R.tier(cells=_sq([4], 3), timeout=600,
+        quick=R.tier(cells=_sq([4], 3, True), timeout=300,
                      bound=_SHAPES_TXT % "(0,1),2" + "; A, B, C from the first 3 sub-queries of SUBQ"),
-        thorough=R.tier(cells=_sq([4, 5], 4) + _sq([6, 7], 3), timeout=900,
+        thorough=R.tier(cells=_sq([4, 5], 4, True) + _sq([6, 7], 3, True), timeout=900,
                         bound="shapes (0,1),2 and (0,(1)),2 x first 4 sub-queries; ((0,1),2) and (0,1),(2,3) x first 3"),
         what="'(A && B) && C', 'A && (B && C)' and 'A && B && C' give the same verdict",
         oracle="three runs of the real search", stubs=_STUB, outside="other shapes / sub-queries"),
     R.H("term_modes", _TA,
-        quick=R.tier(cells=_cells([("VP_SH", [2, 4, 5])]), timeout=600,
+        quick=R.tier(cells=_cells([("VP_SH", [2, 4, 5])]), timeout=300,
                      bound=_SHAPES_TXT % "(0,1), (0,1),2, (0,(1)),2" + "; terms a, b, \"a\", b*, c"),
         thorough=R.tier(cells=_cells([("VP_SH", [0, 1, 2, 3, 4, 5, 6, 7, 8]), ("VP_QA", [0, 1, 2, 6, 9])]) +
                         _cells([("VP_SH", [9, 10]), ("VP_QA", [0, 1, 2, 6])]), timeout=900,
@@ -523,16 +535,16 @@ HARNESSES = [
         oracle="inline reference over the tag letters and the stub's parent table", stubs=_STUB,
         outside="multi-character tags, values, extensions; the bundled schemas"),
     R.H("perm_invariant", _TA,
-        quick=R.tier(cells=[dict(c, VP_M=8) for c in _cells([("VP_PM", [3, 4]), ("VP_Q", list(range(8)))])],
-                     timeout=600,
-                     bound="trees (0,1),2 and (0,(1)),2 vs. the same trees with every sibling list reversed; first 8 queries of PERMQ"),
+        quick=R.tier(cells=[dict(c, VP_M=6) for c in _cells([("VP_PM", [3, 4]), ("VP_Q", list(range(6)))])],
+                     timeout=300,
+                     bound="trees (0,1),2 and (0,(1)),2 vs. the same trees with every sibling list reversed; first 6 queries of PERMQ"),
         thorough=R.tier(cells=[dict(c, VP_M=16) for c in _cells([("VP_PM", list(range(9))), ("VP_Q", list(range(16)))])] +
                         [dict(c, VP_M=4) for c in _cells([("VP_PM", [9]), ("VP_Q", list(range(4)))])],
                         timeout=900, bound="all PERMS pairs up to 4 tags x 16 queries; the 5-tag pair x first 4 queries"),
         what="the match verdict is the same on an annotation and on the annotation with its siblings reordered",
         oracle="two runs of the real search", stubs=_STUB, outside="other permutations / queries"),
     R.H("search_pure", _TA,
-        quick=R.tier(cells=_sq([4, 5], 8), timeout=600,
+        quick=R.tier(cells=_sq([4, 5], 8), timeout=300,
                      bound=_SHAPES_TXT % "(0,1),2 and (0,(1)),2" + "; first 8 sub-queries of SUBQ"),
         thorough=R.tier(cells=_sq([2, 4, 5, 6, 7, 8], 16) + _sq([9], 4), timeout=900,
                         bound="shapes with 2-4 tags x all 16 sub-queries; (0,1),(2,(3,4)) x first 4"),
